@@ -353,6 +353,16 @@ func runC02(env *Env) error {
 	seen := map[string]bool{}
 	wsIso := &wsIsolated{}
 	defer wsIso.stop()
+	defer func() {
+		// envelopes that came back changed when received behind a rejected one on the same connection
+		for _, a := range tcpPathAnomalies {
+			c02Counter++
+			c := &c02Case{Input: a.After, Mutation: "received-behind-a-rejected-envelope", Unstable: true, Any: a.Got}
+			c.term = coqfmt.App("CBytes", coqfmt.Nat(c02Counter), coqfmt.Bool(false), coqfmt.Bool(true))
+			env.Add(c.term, c)
+		}
+		tcpPathAnomalies = nil
+	}()
 	addBytes := func(b []byte, mutation string) {
 		if seen[string(b)] {
 			return
